@@ -6,6 +6,7 @@ from .. import schemarun as R
 
 LEVEL = "proof"
 N = {"quick": 6000, "thorough": 200000}
+NF = {"quick": 3600, "thorough": 120000}      # single-fault cases (lib/focusgen.py)
 FINDING_CLASSES = (1, 2, 3, 4, 5, 6)
 
 
@@ -102,7 +103,8 @@ def run_cases(chk, binp, cases, pf_ok, pf):
             "oracles computed by the harness with Go's regexp, utf8 and strfmt.Default, independently of the code under test",
             "definitions environment obtained with spec.ExpandSchema (go-openapi/spec is not modelled)"],
         "evaluations": len(J), "distinct_nontrivial": len(distinct),
-        "rule": "corpus + the labelled draft-4 suite instances shipped with /repo + random schemas (1..3 keyword groups per level, "
+        "rule": "corpus + the labelled draft-4 suite instances shipped with /repo + single-fault cases per keyword family (an instance built to "
+                "satisfy the schema, one fault planted at a random place; lib/focusgen.py) + random schemas (1..3 keyword groups per level, "
                 "depth 1..3, definitions with references under properties/items) with instances derived from the schema (70%) or "
                 "random; every case judged by Go, by the L1 model and by the L0 draft-4 function in exact decimal arithmetic; "
                 "non-trivial = schema with >= 2 keywords or a nested sub-schema, and the model ran it; distinct by (schema, instance)",
@@ -118,7 +120,8 @@ def run_cases(chk, binp, cases, pf_ok, pf):
 def run(chk):
     pf_ok, pf = C.proof_obligations("C01")
     binp = C.build_harness("verif")
-    cases = R.corpus_cases("C01") + R.suite_cases() + R.generate(binp, chk.seed, N[chk.tier], chk.tier)
+    from .. import focusgen as F
+    cases = R.corpus_cases("C01") + R.suite_cases() + F.cases(chk.seed + 101, NF[chk.tier]) + R.generate(binp, chk.seed, N[chk.tier], chk.tier)
     run_cases(chk, binp, cases, pf_ok, pf)
 
 
